@@ -148,4 +148,691 @@ mod k {
         let _ = p6.netmask();
         let _ = p6.contains(Ipv6Addr::from(kani::any::<u128>()));
     }
+
+    // =====================================================================================================
+    // C19: the leaf parsers of the loader (config.rs:130-529) are total and what they accept is safe to use.
+    // Yaml values are built directly (the YAML text scanner is out of CBMC's reach); strings have a CONCRETE
+    // length (one instance per length, const generics) and symbolic ASCII contents.
+    // =====================================================================================================
+    include!(concat!(env!("ISOMER_ERBIUM_VERIF_DIR"), "/_common.rs"));
+    use yaml_rust::yaml::Yaml;
+
+    // N symbolic ASCII octets as a String (UTF-8 validity is checked by the real std::str::from_utf8)
+    fn ascii<const N: usize>() -> (String, [u8; N]) {
+        let b: [u8; N] = kani::any();
+        let mut i = 0;
+        while i < N {
+            kani::assume(b[i] < 128);
+            i += 1;
+        }
+        (String::from(std::str::from_utf8(&b).unwrap()), b)
+    }
+    // concrete prefix P followed by N symbolic ASCII octets
+    fn with_tail<const N: usize>(head: &str) -> (String, [u8; N]) {
+        let (t, b) = ascii::<N>();
+        let mut s = String::from(head);
+        s.push_str(&t);
+        (s, b)
+    }
+    fn is_invalid_config<T>(r: &Result<T, Error>) -> bool {
+        matches!(r, Err(Error::InvalidConfig(_)))
+    }
+
+    // The values a YAML document can put where a scalar is expected.  `k` is concrete at every call site
+    // (one branch per kind) so that each instance has a concrete enum variant.
+    const KIND_REAL: u8 = 0;
+    const KIND_INT: u8 = 1;
+    const KIND_STR: u8 = 2;
+    const KIND_BOOL: u8 = 3;
+    const KIND_ARR_NULL: u8 = 4; // [~]
+    const KIND_ARR_MIXED: u8 = 5; // [<int>, ""]
+    const KIND_HASH_EMPTY: u8 = 6; // {}
+    const KIND_ALIAS: u8 = 7;
+    const KIND_NULL: u8 = 8;
+    const KIND_BAD: u8 = 9;
+    const KIND_ARR_NESTED: u8 = 10; // [[true]]
+    const KIND_ARR_STRS: u8 = 11; // ["a", "b"]
+    const KIND_ARR_EMPTY: u8 = 12; // []
+    const KIND_ARR_ARR_EMPTY: u8 = 13; // [[]]
+    fn yaml_of_kind(k: u8) -> Yaml {
+        match k {
+            KIND_REAL => Yaml::Real(String::from("1.5")),
+            KIND_INT => Yaml::Integer(kani::any()),
+            KIND_STR => Yaml::String(String::from("x")),
+            KIND_BOOL => Yaml::Boolean(kani::any()),
+            KIND_ARR_NULL => Yaml::Array(vec![Yaml::Null]),
+            KIND_ARR_MIXED => Yaml::Array(vec![Yaml::Integer(kani::any()), Yaml::String(String::new())]),
+            KIND_HASH_EMPTY => Yaml::Hash(Default::default()),
+            KIND_ALIAS => Yaml::Alias(kani::any()),
+            KIND_NULL => Yaml::Null,
+            KIND_BAD => Yaml::BadValue,
+            KIND_ARR_NESTED => Yaml::Array(vec![Yaml::Array(vec![Yaml::Boolean(true)])]),
+            KIND_ARR_STRS => Yaml::Array(vec![Yaml::String(String::from("a")), Yaml::String(String::from("b"))]),
+            KIND_ARR_EMPTY => Yaml::Array(Vec::new()),
+            _ => Yaml::Array(vec![Yaml::Array(Vec::new())]),
+        }
+    }
+
+    fn type_to_name_on(k: u8) {
+        let y = yaml_of_kind(k);
+        let n = type_to_name(&y);
+        std::mem::forget(n);
+        std::mem::forget(y);
+    }
+
+    /// VERIF: {"p":"C19","tier":"quick","fns":["config::type_to_name"],"bounds":"one value of every Yaml variant: Real, Integer(any i64), String, Boolean(any), Array of 1 and 2 elements, nested array, empty Hash, Alias(any), Null, BadValue - every collection NON-empty","oracle":"returns a name, no panic","stubs":["alloc::fmt::format -> empty string (message text only)","std::hash::RandomState::new -> fixed keys (creating the empty Hash)"],"covers":1,"unwind":4}
+    #[kani::proof]
+    #[kani::unwind(4)]
+    #[kani::stub(alloc::fmt::format, empty_format)]
+    #[kani::stub(std::hash::RandomState::new, fixed_random_state)]
+    fn c19_type_to_name_nonempty_values() {
+        match kani::any::<u8>() {
+            0 => type_to_name_on(KIND_REAL),
+            1 => type_to_name_on(KIND_INT),
+            2 => type_to_name_on(KIND_STR),
+            3 => type_to_name_on(KIND_BOOL),
+            4 => type_to_name_on(KIND_ARR_NULL),
+            5 => type_to_name_on(KIND_ARR_MIXED),
+            6 => type_to_name_on(KIND_HASH_EMPTY),
+            7 => type_to_name_on(KIND_ALIAS),
+            8 => type_to_name_on(KIND_NULL),
+            9 => type_to_name_on(KIND_BAD),
+            10 => type_to_name_on(KIND_ARR_NESTED),
+            _ => type_to_name_on(KIND_ARR_STRS),
+        }
+        kani::cover!(true, "reached");
+    }
+
+    /// VERIF: {"p":"C19","tier":"quick","fns":["config::type_to_name"],"bounds":"the empty sequence `[]` (Yaml::Array(vec![])) and a sequence holding it `[[]]`","oracle":"returns a name, no panic (this is the function every typed parser calls to describe a wrongly typed value)","stubs":["alloc::fmt::format -> empty string (message text only)"],"covers":1,"unwind":4}
+    #[kani::proof]
+    #[kani::unwind(4)]
+    #[kani::stub(alloc::fmt::format, empty_format)]
+    fn c19_type_to_name_empty_array() {
+        let nested: bool = kani::any();
+        kani::cover!(nested, "[[]]");
+        if nested {
+            type_to_name_on(KIND_ARR_ARR_EMPTY)
+        } else {
+            type_to_name_on(KIND_ARR_EMPTY)
+        }
+    }
+
+    // every typed scalar parser on one value of kind k: right type => Ok(Some), Null => Ok(None),
+    // anything else => Err(InvalidConfig)
+    fn scalar_parsers_on(k: u8) {
+        let y = yaml_of_kind(k);
+        let is_null = k == KIND_NULL;
+        let r = parse_i64("k", &y);
+        match &y {
+            Yaml::Integer(i) => assert!(matches!(r, Ok(Some(v)) if v == *i), "parse_i64 returns the integer"),
+            Yaml::Null => assert!(matches!(r, Ok(None)), "parse_i64: null is None"),
+            _ => assert!(is_invalid_config(&r), "parse_i64 refuses a non-integer with InvalidConfig"),
+        }
+        std::mem::forget(r);
+        let r = parse_num::<u8>("k", &y);
+        match &y {
+            Yaml::Integer(i) if (0..=255).contains(i) => assert!(matches!(r, Ok(Some(v)) if v as i64 == *i), "parse_num::<u8> in range"),
+            Yaml::Null => assert!(matches!(r, Ok(None)), "parse_num: null is None"),
+            _ => assert!(is_invalid_config(&r), "parse_num::<u8> refuses out-of-range / non-integer"),
+        }
+        std::mem::forget(r);
+        let r = parse_num::<u32>("k", &y);
+        match &y {
+            Yaml::Integer(i) if (0..=u32::MAX as i64).contains(i) => assert!(matches!(r, Ok(Some(v)) if v as i64 == *i), "parse_num::<u32> in range"),
+            Yaml::Null => assert!(matches!(r, Ok(None)), "parse_num: null is None"),
+            _ => assert!(is_invalid_config(&r), "parse_num::<u32> refuses out-of-range / non-integer"),
+        }
+        std::mem::forget(r);
+        let r = parse_string("k", &y);
+        match &y {
+            Yaml::String(_) => assert!(matches!(&r, Ok(Some(s)) if s.len() == 1), "parse_string returns the string"),
+            Yaml::Null => assert!(matches!(r, Ok(None)), "parse_string: null is None"),
+            _ => assert!(is_invalid_config(&r), "parse_string refuses a non-string with InvalidConfig"),
+        }
+        std::mem::forget(r);
+        let r = parse_boolean("k", &y);
+        match &y {
+            Yaml::Boolean(b) => assert!(matches!(r, Ok(Some(v)) if v == *b), "parse_boolean returns the boolean"),
+            Yaml::Null => assert!(matches!(r, Ok(None)), "parse_boolean: null is None"),
+            _ => assert!(is_invalid_config(&r), "parse_boolean refuses a non-boolean with InvalidConfig"),
+        }
+        std::mem::forget(r);
+        let r = parse_duration("k", &y);
+        match &y {
+            Yaml::Integer(_) => assert!(matches!(r, Ok(Some(_))), "parse_duration takes integers"),
+            Yaml::Null => assert!(matches!(r, Ok(None)), "parse_duration: null is None"),
+            _ => assert!(is_invalid_config(&r), "parse_duration refuses other types (and the string \"x\")"),
+        }
+        std::mem::forget(r);
+        // string-typed address parsers: the String kind is "x", which none of them accepts
+        let r = parse_string_hwaddr("k", &y);
+        assert!(if is_null { matches!(r, Ok(None)) } else { is_invalid_config(&r) }, "parse_string_hwaddr");
+        std::mem::forget(r);
+        let r = parse_string_ip("k", &y);
+        assert!(if is_null { matches!(r, Ok(None)) } else { is_invalid_config(&r) }, "parse_string_ip");
+        std::mem::forget(r);
+        let r = parse_string_ip4("k", &y);
+        assert!(if is_null { matches!(r, Ok(None)) } else { is_invalid_config(&r) }, "parse_string_ip4");
+        std::mem::forget(r);
+        let r = parse_string_ip6("k", &y);
+        assert!(if is_null { matches!(r, Ok(None)) } else { is_invalid_config(&r) }, "parse_string_ip6");
+        std::mem::forget(r);
+        let r = parse_string_prefix("k", &y);
+        assert!(if is_null { matches!(r, Ok(None)) } else { is_invalid_config(&r) }, "parse_string_prefix");
+        std::mem::forget(r);
+        let r = parse_string_prefix4("k", &y);
+        assert!(if is_null { matches!(r, Ok(None)) } else { is_invalid_config(&r) }, "parse_string_prefix4");
+        std::mem::forget(r);
+        let r = parse_string_prefix6("k", &y);
+        assert!(if is_null { matches!(r, Ok(None)) } else { is_invalid_config(&r) }, "parse_string_prefix6");
+        std::mem::forget(r);
+        let r = parse_string_sockaddr("k", &y);
+        assert!(if is_null { matches!(r, Ok(None)) } else { is_invalid_config(&r) }, "parse_string_sockaddr");
+        std::mem::forget(r);
+        std::mem::forget(y);
+    }
+
+    /// VERIF: {"p":"C19","tier":"quick","fns":["config::parse_i64","config::parse_num::<u8>","config::parse_num::<u32>","config::parse_string","config::parse_boolean","config::parse_duration","config::parse_string_hwaddr","config::parse_string_ip","config::parse_string_ip4","config::parse_string_ip6","config::parse_string_prefix","config::parse_string_prefix4","config::parse_string_prefix6","config::parse_string_sockaddr","config::type_to_name"],"bounds":"each parser on one value of every Yaml variant (Real, Integer(any i64), String \"x\", Boolean(any), arrays of 1-2 elements, nested array, empty Hash, Alias(any), Null, BadValue); every array NON-empty","oracle":"right type => Ok(Some(value)); Null => Ok(None); every wrong type (and out-of-range integer) => Err(InvalidConfig); never a panic","stubs":["alloc::fmt::format -> empty string (message text only)","std::hash::RandomState::new -> fixed keys (creating the empty Hash)"],"covers":3,"unwind":8}
+    #[kani::proof]
+    #[kani::unwind(8)]
+    #[kani::stub(alloc::fmt::format, empty_format)]
+    #[kani::stub(std::hash::RandomState::new, fixed_random_state)]
+    fn c19_scalar_parsers_wrong_type() {
+        let k: u8 = kani::any();
+        kani::cover!(k == 1, "integer");
+        kani::cover!(k == 6, "hash where a scalar is expected");
+        kani::cover!(k == 10, "nested array where a scalar is expected");
+        match k {
+            0 => scalar_parsers_on(KIND_REAL),
+            1 => scalar_parsers_on(KIND_INT),
+            2 => scalar_parsers_on(KIND_STR),
+            3 => scalar_parsers_on(KIND_BOOL),
+            4 => scalar_parsers_on(KIND_ARR_NULL),
+            5 => scalar_parsers_on(KIND_ARR_MIXED),
+            6 => scalar_parsers_on(KIND_HASH_EMPTY),
+            7 => scalar_parsers_on(KIND_ALIAS),
+            8 => scalar_parsers_on(KIND_NULL),
+            9 => scalar_parsers_on(KIND_BAD),
+            10 => scalar_parsers_on(KIND_ARR_NESTED),
+            _ => scalar_parsers_on(KIND_ARR_STRS),
+        }
+    }
+
+    /// VERIF: {"p":"C19","tier":"quick","fns":["config::parse_i64","config::parse_num","config::parse_string","config::parse_boolean","config::parse_duration","config::parse_string_*","config::type_to_name"],"bounds":"each typed scalar parser on the empty sequence `[]` (e.g. `hop-limit: []`, `captive-portal: []`)","oracle":"Err(InvalidConfig), never a panic","stubs":["alloc::fmt::format -> empty string (message text only)"],"covers":1,"unwind":8}
+    #[kani::proof]
+    #[kani::unwind(8)]
+    #[kani::stub(alloc::fmt::format, empty_format)]
+    fn c19_scalar_parsers_empty_array() {
+        kani::cover!(kani::any::<u8>() == 0xA5, "reached");
+        scalar_parsers_on(KIND_ARR_EMPTY);
+    }
+
+    fn array_parser_on(k: u8) {
+        let y = yaml_of_kind(k);
+        let r = parse_array("k", &y, parse_string);
+        match k {
+            KIND_NULL => assert!(matches!(r, Ok(None)), "parse_array: null is None"),
+            KIND_ARR_STRS => assert!(matches!(&r, Ok(Some(v)) if v.len() == 2 && v[0].len() == 1), "parse_array returns every element"),
+            KIND_ARR_EMPTY => assert!(matches!(&r, Ok(Some(v)) if v.is_empty()), "parse_array: [] is an empty list"),
+            _ => assert!(is_invalid_config(&r), "parse_array refuses non-arrays, null elements and wrongly typed elements"),
+        }
+        std::mem::forget(r);
+        let r = parse_array("k", &y, parse_num::<u16>);
+        match k {
+            KIND_NULL => assert!(matches!(r, Ok(None)), "parse_array: null is None"),
+            KIND_ARR_EMPTY => assert!(matches!(&r, Ok(Some(v)) if v.is_empty()), "parse_array: [] is an empty list"),
+            _ => assert!(is_invalid_config(&r), "parse_array(parse_num) refuses everything else offered here"),
+        }
+        std::mem::forget(r);
+        std::mem::forget(y);
+    }
+
+    /// VERIF: {"p":"C19","tier":"quick","fns":["config::parse_array","config::parse_string","config::parse_num::<u16>","config::type_to_name"],"bounds":"parse_array with element parsers parse_string and parse_num::<u16> on one value of every Yaml variant incl. `[]`, `[~]`, `[<int>, \"\"]`, `[\"a\",\"b\"]`, `[[true]]`, `{}`","oracle":"Null => Ok(None); array of right-typed elements => Ok(Some(all elements)); `[]` => Ok(Some([])); null element, wrong element type, non-array => Err(InvalidConfig); never a panic","stubs":["alloc::fmt::format -> empty string (message text only)","std::hash::RandomState::new -> fixed keys (creating the empty Hash)"],"covers":2,"unwind":8}
+    #[kani::proof]
+    #[kani::unwind(8)]
+    #[kani::stub(alloc::fmt::format, empty_format)]
+    #[kani::stub(std::hash::RandomState::new, fixed_random_state)]
+    fn c19_parse_array_wrong_type() {
+        let k: u8 = kani::any();
+        kani::cover!(k == 11, "array of strings");
+        kani::cover!(k == 4, "array holding null");
+        match k {
+            0 => array_parser_on(KIND_REAL),
+            1 => array_parser_on(KIND_INT),
+            2 => array_parser_on(KIND_STR),
+            3 => array_parser_on(KIND_BOOL),
+            4 => array_parser_on(KIND_ARR_NULL),
+            5 => array_parser_on(KIND_ARR_MIXED),
+            6 => array_parser_on(KIND_HASH_EMPTY),
+            7 => array_parser_on(KIND_ALIAS),
+            8 => array_parser_on(KIND_NULL),
+            9 => array_parser_on(KIND_BAD),
+            10 => array_parser_on(KIND_ARR_NESTED),
+            11 => array_parser_on(KIND_ARR_STRS),
+            _ => array_parser_on(KIND_ARR_EMPTY),
+        }
+    }
+
+    /// VERIF: {"p":"C19","tier":"quick","fns":["config::parse_array","config::parse_string","config::type_to_name"],"bounds":"parse_array(parse_string) on `[[]]` (a list whose element is an empty list, e.g. `dns-search: [[]]`)","oracle":"Err(InvalidConfig), never a panic","stubs":["alloc::fmt::format -> empty string (message text only)"],"covers":1,"unwind":8}
+    #[kani::proof]
+    #[kani::unwind(8)]
+    #[kani::stub(alloc::fmt::format, empty_format)]
+    fn c19_parse_array_of_empty_array() {
+        kani::cover!(kani::any::<u8>() == 0xA5, "reached");
+        array_parser_on(KIND_ARR_ARR_EMPTY);
+    }
+
+    /// VERIF: {"p":"C19","tier":"quick","fns":["config::parse_num::<u8>","config::parse_num::<u16>","config::parse_num::<u32>","config::parse_num::<i32>","config::parse_i64"],"bounds":"Yaml::Integer(i) for all 2^64 i","oracle":"Ok(Some(i)) exactly when i fits the target type, Err(InvalidConfig) otherwise; never a panic or a silent truncation","stubs":["alloc::fmt::format -> empty string (message text only)"],"covers":2}
+    #[kani::proof]
+    #[kani::stub(alloc::fmt::format, empty_format)]
+    fn c19_parse_num_all_i64() {
+        let i: i64 = kani::any();
+        let y = Yaml::Integer(i);
+        kani::cover!(i < 0, "negative");
+        kani::cover!(i > u32::MAX as i64, "huge");
+        let r = parse_num::<u8>("k", &y);
+        assert!(if (0..=u8::MAX as i64).contains(&i) { matches!(r, Ok(Some(v)) if v as i64 == i) } else { is_invalid_config(&r) }, "parse_num::<u8>");
+        std::mem::forget(r);
+        let r = parse_num::<u16>("k", &y);
+        assert!(if (0..=u16::MAX as i64).contains(&i) { matches!(r, Ok(Some(v)) if v as i64 == i) } else { is_invalid_config(&r) }, "parse_num::<u16>");
+        std::mem::forget(r);
+        let r = parse_num::<u32>("k", &y);
+        assert!(if (0..=u32::MAX as i64).contains(&i) { matches!(r, Ok(Some(v)) if v as i64 == i) } else { is_invalid_config(&r) }, "parse_num::<u32>");
+        std::mem::forget(r);
+        let r = parse_num::<i32>("k", &y);
+        assert!(if (i32::MIN as i64..=i32::MAX as i64).contains(&i) { matches!(r, Ok(Some(v)) if v as i64 == i) } else { is_invalid_config(&r) }, "parse_num::<i32>");
+        std::mem::forget(r);
+    }
+
+    /// VERIF: {"p":"C19","tier":"quick","fns":["config::parse_duration"],"bounds":"Yaml::Integer(i) for all 2^64 i (negative, zero, huge)","oracle":"never a panic; a non-negative integer is that many seconds. (Not asserted, only witnessed by a cover: a NEGATIVE integer is accepted and becomes 2^64+i seconds through `as u64`)","covers":3}
+    #[kani::proof]
+    fn c19_parse_duration_integer_all_i64() {
+        let i: i64 = kani::any();
+        let y = Yaml::Integer(i);
+        let r = parse_duration("lifetime", &y);
+        kani::cover!(i == i64::MAX, "largest integer");
+        kani::cover!(i == 0, "zero");
+        kani::cover!(i == -1 && matches!(&r, Ok(Some(d)) if d.as_secs() == u64::MAX), "observation: `lifetime: -1` is accepted as 18446744073709551615 s");
+        assert!(matches!(r, Ok(Some(_)) | Err(Error::InvalidConfig(_))), "integer durations: a value or InvalidConfig");
+        if i >= 0 {
+            assert!(matches!(&r, Ok(Some(d)) if d.as_secs() == i as u64 && d.subsec_nanos() == 0), "non-negative integer = seconds");
+        }
+    }
+
+    // ---- duration strings ------------------------------------------------------------------------------
+    fn is_unit(b: u8) -> bool {
+        matches!(b, b's' | b'm' | b'h' | b'd' | b'w')
+    }
+    fn is_skipped(b: u8) -> bool {
+        b == b'_' || b == b' ' || (9..=13).contains(&b) // '_' and ASCII White_Space
+    }
+    // Meaning of a duration string, written from the manual's examples ("1h 30m", "7d", "24h", "10m", "6h"):
+    // a sum of <decimal number><unit> terms, a trailing bare number counts seconds, blanks and '_' are
+    // separators without meaning.  None = not a duration (foreign character / unit without a number).
+    fn ref_duration<const N: usize>(b: &[u8; N]) -> Option<u64> {
+        // N <= 6 at every use: at most 99999 weeks, far below 2^64
+        let mut total: u64 = 0;
+        let mut cur: Option<u64> = None;
+        let mut i = 0;
+        while i < N {
+            let c = b[i];
+            if c.is_ascii_digit() {
+                cur = Some(cur.unwrap_or(0) * 10 + (c - b'0') as u64);
+            } else if is_unit(c) {
+                let mult: u64 = match c {
+                    b's' => 1,
+                    b'm' => 60,
+                    b'h' => 3600,
+                    b'd' => 86400,
+                    _ => 7 * 86400,
+                };
+                match cur.take() {
+                    None => return None,
+                    Some(n) => total += n * mult,
+                }
+            } else if !is_skipped(c) {
+                return None;
+            }
+            i += 1;
+        }
+        Some(total + cur.unwrap_or(0))
+    }
+
+    fn duration_total<const N: usize>() {
+        let (s, _b) = ascii::<N>();
+        let r = str_duration(Some(s));
+        assert!(matches!(r, Ok(Some(_)) | Err(Error::InvalidConfig(_))), "str_duration: a duration or InvalidConfig");
+        std::mem::forget(r);
+    }
+
+    /// VERIF: {"p":"C19","tier":"quick","fns":["config::str_duration"],"bounds":"every ASCII string of length 0,1,2,3,4 (all 128 values per octet)","oracle":"Ok(duration) or Err(InvalidConfig): never a panic (unwrap, arithmetic overflow)","stubs":["alloc::fmt::format -> empty string (message text only)"],"covers":1,"unwind":7}
+    #[kani::proof]
+    #[kani::unwind(7)]
+    #[kani::stub(alloc::fmt::format, empty_format)]
+    fn c19_str_duration_total_short() {
+        let n: u8 = kani::any();
+        kani::cover!(n == 0xA5, "length 4");
+        match n {
+            0 => duration_total::<0>(),
+            1 => duration_total::<1>(),
+            2 => duration_total::<2>(),
+            3 => duration_total::<3>(),
+            _ => duration_total::<4>(),
+        }
+    }
+
+    // -> (value the reference assigns, or None when it refuses)
+    fn duration_value<const N: usize>() -> Option<u64> {
+        let (s, b) = ascii::<N>();
+        let want = ref_duration(&b);
+        // unit letters without a number in front are excluded HERE (c19_str_duration_total_short shows what
+        // happens to them); everything else, including foreign characters, is in
+        let mut num = false;
+        let mut i = 0;
+        while i < N {
+            if b[i].is_ascii_digit() {
+                num = true;
+            } else if is_unit(b[i]) {
+                kani::assume(num);
+                num = false;
+            } else if !is_skipped(b[i]) {
+                break;
+            }
+            i += 1;
+        }
+        let r = str_duration(Some(s));
+        match want {
+            Some(w) => assert!(matches!(&r, Ok(Some(d)) if d.as_secs() == w && d.subsec_nanos() == 0), "str_duration value == sum of number x unit"),
+            None => assert!(is_invalid_config(&r), "str_duration refuses foreign characters with InvalidConfig"),
+        }
+        std::mem::forget(r);
+        want
+    }
+
+    /// VERIF: {"p":"C19","tier":"quick","fns":["config::str_duration"],"bounds":"every ASCII string of length 0..=6 in which each unit letter (s m h d w) that precedes the first foreign character has a digit between it and the previous unit letter","oracle":"value == sum of number x unit (+ trailing bare number as seconds), blanks and '_' ignored; a foreign character => Err(InvalidConfig); never a panic","stubs":["alloc::fmt::format -> empty string (message text only)"],"covers":3,"unwind":9}
+    #[kani::proof]
+    #[kani::unwind(9)]
+    #[kani::stub(alloc::fmt::format, empty_format)]
+    fn c19_str_duration_value_wellformed() {
+        let n: u8 = kani::any();
+        let want = match n {
+            0 => duration_value::<0>(),
+            1 => duration_value::<1>(),
+            2 => duration_value::<2>(),
+            3 => duration_value::<3>(),
+            4 => duration_value::<4>(),
+            5 => duration_value::<5>(),
+            _ => duration_value::<6>(),
+        };
+        kani::cover!(n == 5 && want == Some(5400), "1h30m / 1h 30m / 90m_ ...");
+        kani::cover!(n == 6 && want == Some(3 * 604800 + 2), "several terms incl. weeks and a bare number");
+        kani::cover!(n == 2 && want.is_none(), "refused");
+    }
+
+    // D symbolic decimal digits, the first one at most `first_max`
+    fn digits<const D: usize>(out: &mut Vec<u8>, first_max: u8) {
+        let d: [u8; D] = kani::any();
+        let mut i = 0;
+        while i < D {
+            kani::assume(d[i] <= 9);
+            kani::assume(i != 0 || d[i] <= first_max);
+            out.push(b'0' + d[i]);
+            i += 1;
+        }
+    }
+    fn any_unit() -> u8 {
+        let u: u8 = kani::any();
+        kani::assume(is_unit(u));
+        u
+    }
+    fn run_duration(v: Vec<u8>) {
+        // SAFETY: decimal digits and the letters s m h d w only, i.e. ASCII (checked right here)
+        let mut i = 0;
+        while i < v.len() {
+            assert!(v[i] < 128, "harness sanity: ASCII");
+            i += 1;
+        }
+        let s = unsafe { String::from_utf8_unchecked(v) };
+        let r = str_duration(Some(s));
+        assert!(matches!(r, Ok(Some(_)) | Err(Error::InvalidConfig(_))), "str_duration: a duration or InvalidConfig");
+        std::mem::forget(r);
+    }
+
+    /// VERIF: {"p":"C19","tier":"quick","fns":["config::str_duration"],"bounds":"strings of exactly 20 symbolic decimal digits followed by one symbolic unit letter (s m h d w), e.g. `lifetime: 99999999999999999999s`","oracle":"Ok or Err(InvalidConfig): a number that does not fit is refused, not a panic / silent wrap-around","stubs":["alloc::fmt::format -> empty string (message text only)"],"covers":1,"unwind":24}
+    #[kani::proof]
+    #[kani::unwind(24)]
+    #[kani::stub(alloc::fmt::format, empty_format)]
+    fn c19_str_duration_20_digits() {
+        let mut v = Vec::with_capacity(21);
+        digits::<20>(&mut v, 9);
+        v.push(any_unit());
+        kani::cover!(v[0] == b'0' && v[1] == b'7' && v[20] == b's', "fits: leading zero");
+        run_duration(v);
+    }
+
+    /// VERIF: {"p":"C19","tier":"quick","fns":["config::str_duration"],"bounds":"strings of exactly 15 symbolic decimal digits (the number itself always fits a u64) followed by one symbolic unit letter, e.g. `valid: 999999999999999w`","oracle":"Ok or Err(InvalidConfig): never a panic / silent wrap-around in number x unit","stubs":["alloc::fmt::format -> empty string (message text only)"],"covers":1,"unwind":19}
+    #[kani::proof]
+    #[kani::unwind(19)]
+    #[kani::stub(alloc::fmt::format, empty_format)]
+    fn c19_str_duration_unit_scaling() {
+        let mut v = Vec::with_capacity(16);
+        digits::<15>(&mut v, 9);
+        v.push(any_unit());
+        kani::cover!(v[15] == b'h' && v[3] == b'7', "hours never overflow with 15 digits");
+        run_duration(v);
+    }
+
+    /// VERIF: {"p":"C19","tier":"quick","fns":["config::str_duration"],"bounds":"two terms `<14 digits>w<14 digits>w`, first digit of each number 0..=2 (so each term alone is below 2^64 seconds: 29999999999999 weeks = 1.81e19 s), other digits symbolic","oracle":"Ok or Err(InvalidConfig): a sum that does not fit is refused, not a panic (Duration += panics with 'overflow when adding durations' in every build profile)","stubs":["alloc::fmt::format -> empty string (message text only)"],"covers":1,"unwind":33}
+    #[kani::proof]
+    #[kani::unwind(33)]
+    #[kani::stub(alloc::fmt::format, empty_format)]
+    fn c19_str_duration_sum_of_terms() {
+        let mut v = Vec::with_capacity(30);
+        digits::<14>(&mut v, 2);
+        v.push(b'w');
+        digits::<14>(&mut v, 2);
+        v.push(b'w');
+        kani::cover!(v[0] == b'0' && v[15] == b'0' && v[5] == b'7', "sum fits");
+        run_duration(v);
+    }
+
+    // ---- hardware addresses ----------------------------------------------------------------------------
+    fn hexval(c: u8) -> Option<u8> {
+        if c.is_ascii_digit() {
+            Some(c - b'0')
+        } else if (b'a'..=b'f').contains(&c) {
+            Some(c - b'a' + 10)
+        } else if (b'A'..=b'F').contains(&c) {
+            Some(c - b'A' + 10)
+        } else {
+            None
+        }
+    }
+    // -> accepted?
+    fn hexbyte_on<const N: usize>() -> bool {
+        let (s, b) = ascii::<N>();
+        let bs: &[u8] = &b;
+        let r = hexbyte(&s);
+        let want = if bs.len() == 2 {
+            match (hexval(bs[0]), hexval(bs[1])) {
+                (Some(h), Some(l)) => Some(h * 16 + l),
+                _ => None,
+            }
+        } else {
+            None
+        };
+        match want {
+            Some(w) => assert!(matches!(r, Ok(v) if v == w), "hexbyte value"),
+            None => assert!(r.is_err(), "hexbyte refuses anything but two hex digits"),
+        }
+        want.is_some()
+    }
+
+    /// VERIF: {"p":"C19","tier":"quick","fns":["config::hexbyte","config::hexdigit"],"bounds":"every ASCII string of length 0,1,2,3","oracle":"Ok(16*h+l) exactly for two hex digits (either case), Err otherwise; never a panic","covers":2,"unwind":6}
+    #[kani::proof]
+    #[kani::unwind(6)]
+    fn c19_hexbyte_total() {
+        let n: u8 = kani::any();
+        let ok = match n {
+            0 => hexbyte_on::<0>(),
+            1 => hexbyte_on::<1>(),
+            2 => hexbyte_on::<2>(),
+            _ => hexbyte_on::<3>(),
+        };
+        kani::cover!(ok, "two hex digits");
+        kani::cover!(!ok && n == 2, "two characters refused");
+    }
+
+    fn hexerror_fmt_silent(_e: &HexError, _f: &mut std::fmt::Formatter<'_>) -> std::fmt::Result {
+        Ok(())
+    }
+    // -> accepted?
+    fn hwaddr_on<const N: usize>() -> bool {
+        let (s, b) = ascii::<N>();
+        let bs: &[u8] = &b;
+        let r = str_hwaddr(Some(s));
+        // reference: octets of two hex digits joined by single colons
+        let mut ok = N % 3 == 2;
+        let mut i = 0;
+        while i < N {
+            ok = ok && if i % 3 == 2 { bs[i] == b':' } else { hexval(bs[i]).is_some() };
+            i += 1;
+        }
+        if ok {
+            let first = hexval(bs[0]).unwrap() * 16 + hexval(bs[1]).unwrap();
+            assert!(matches!(&r, Ok(Some(v)) if v.len() == (N + 1) / 3 && v[0] == first), "str_hwaddr returns one octet per hex pair");
+        } else {
+            assert!(is_invalid_config(&r), "str_hwaddr refuses malformed addresses with InvalidConfig");
+        }
+        std::mem::forget(r);
+        ok
+    }
+
+    /// VERIF: {"p":"C19","tier":"quick","fns":["config::str_hwaddr","config::hexbyte","config::hexdigit"],"bounds":"every ASCII string of length 0,1,2,3,5,6 (all 128 values per octet, so colons anywhere)","oracle":"Ok(octets) exactly for hex pairs joined by single colons, Err(InvalidConfig) otherwise (empty string, empty segment, bad digit, wrong segment length); never a panic","stubs":["<HexError as Display>::fmt -> writes nothing (message text only)"],"covers":2,"unwind":9}
+    #[kani::proof]
+    #[kani::unwind(9)]
+    #[kani::stub(<HexError as std::fmt::Display>::fmt, hexerror_fmt_silent)]
+    fn c19_str_hwaddr_total() {
+        let n: u8 = kani::any();
+        let ok = match n {
+            0 => hwaddr_on::<0>(),
+            1 => hwaddr_on::<1>(),
+            2 => hwaddr_on::<2>(),
+            3 => hwaddr_on::<3>(),
+            4 => hwaddr_on::<5>(),
+            _ => hwaddr_on::<6>(),
+        };
+        kani::cover!(ok && n == 4, "two octets");
+        kani::cover!(!ok && n == 4, "five characters refused");
+    }
+
+    // ---- prefixes: which prefix lengths does the loader let through? -------------------------------------
+    // -> accepted prefix length
+    fn prefix4_on<const N: usize>() -> Option<u8> {
+        let (s, _b) = with_tail::<N>("10.0.0.0/");
+        let r = str_prefix4(Some(s));
+        assert!(matches!(r, Ok(Some(_)) | Err(Error::InvalidConfig(_))), "str_prefix4: a prefix or InvalidConfig");
+        let mut acc = None;
+        if let Ok(Some(p)) = &r {
+            assert!(p.addr == Ipv4Addr::new(10, 0, 0, 0), "address part");
+            assert!(p.prefixlen <= 32, "an accepted IPv4 prefix has a length of at most 32 (Prefix4::new's own invariant)");
+            acc = Some(p.prefixlen);
+        }
+        std::mem::forget(r);
+        acc
+    }
+
+    /// VERIF: {"p":"C19","tier":"quick","fns":["config::str_prefix4","config::str_ip4","config::str_ip"],"bounds":"strings \"10.0.0.0/\" + every ASCII string of length 0,1,2,3 (so /0../999, /-1, /+8, / 8, //, ...)","oracle":"Ok(prefix) or Err(InvalidConfig), never a panic; an accepted prefix satisfies the invariant that Prefix4::new asserts (prefixlen <= 32) and that dhcp::build_default_config relies on (`32 - prefixlen`)","stubs":["alloc::fmt::format -> empty string (message text only)"],"covers":2,"unwind":16}
+    #[kani::proof]
+    #[kani::unwind(16)]
+    #[kani::stub(alloc::fmt::format, empty_format)]
+    fn c19_str_prefix4_accepted_lengths() {
+        let n: u8 = kani::any();
+        let acc = match n {
+            0 => prefix4_on::<0>(),
+            1 => prefix4_on::<1>(),
+            2 => prefix4_on::<2>(),
+            _ => prefix4_on::<3>(),
+        };
+        kani::cover!(n == 2 && acc == Some(24), "10.0.0.0/24 accepted");
+        kani::cover!(n == 0 && acc.is_none(), "10.0.0.0/ refused");
+    }
+
+    fn prefix6_on<const N: usize>() -> Option<u8> {
+        let (s, _b) = with_tail::<N>("fd00::/");
+        let r = str_prefix6(Some(s));
+        assert!(matches!(r, Ok(Some(_)) | Err(Error::InvalidConfig(_))), "str_prefix6: a prefix or InvalidConfig");
+        let mut acc = None;
+        if let Ok(Some(p)) = &r {
+            assert!(p.addr == Ipv6Addr::new(0xfd00, 0, 0, 0, 0, 0, 0, 0), "address part");
+            assert!(p.prefixlen <= 128, "an accepted IPv6 prefix has a length of at most 128 (Prefix6::new's own invariant)");
+            acc = Some(p.prefixlen);
+        }
+        std::mem::forget(r);
+        acc
+    }
+
+    /// VERIF: {"p":"C19","tier":"quick","fns":["config::str_prefix6","config::str_ip6","config::str_ip"],"bounds":"strings \"fd00::/\" + every ASCII string of length 0,1,2,3","oracle":"Ok(prefix) or Err(InvalidConfig), never a panic; an accepted prefix satisfies the invariant that Prefix6::new asserts (prefixlen <= 128)","stubs":["alloc::fmt::format -> empty string (message text only)"],"covers":2,"unwind":16}
+    #[kani::proof]
+    #[kani::unwind(16)]
+    #[kani::stub(alloc::fmt::format, empty_format)]
+    fn c19_str_prefix6_accepted_lengths() {
+        let n: u8 = kani::any();
+        let acc = match n {
+            0 => prefix6_on::<0>(),
+            1 => prefix6_on::<1>(),
+            2 => prefix6_on::<2>(),
+            _ => prefix6_on::<3>(),
+        };
+        kani::cover!(n == 2 && acc == Some(64), "fd00::/64 accepted");
+        kani::cover!(n == 1 && acc.is_none(), "refused");
+    }
+
+    // -> (accepted, is v6)
+    fn prefix_then_serve<const N: usize>(head: &str) -> (bool, bool) {
+        let (s, _b) = with_tail::<N>(head);
+        let r = str_prefix(Some(s));
+        assert!(matches!(r, Ok(Some(_)) | Err(Error::InvalidConfig(_))), "str_prefix: a prefix or InvalidConfig");
+        let mut out = (false, false);
+        if let Ok(Some(p)) = &r {
+            out = (true, matches!(p, Prefix::V6(_)));
+            // what acl::check_subnet does with every `match-subnets` entry for every client address
+            let c4: u32 = kani::any();
+            let c6: u128 = kani::any();
+            let _ = p.contains(IpAddr::V4(Ipv4Addr::from(c4)));
+            let _ = p.contains(IpAddr::V6(Ipv6Addr::from(c6)));
+            let _ = p.network();
+            let _ = p.broadcast();
+        }
+        std::mem::forget(r);
+        out
+    }
+
+    /// VERIF: {"p":"C19","tier":"quick","fns":["config::str_prefix","config::str_ip","config::Prefix::contains(IpAddr)","config::Prefix6::contains(Ipv4Addr)","config::Prefix4::new","config::Prefix::network","config::Prefix::broadcast"],"bounds":"`match-subnets` strings \"192.0.2.0/\" and \"::ffff:0:1/\" (a v4-mapped prefix) + every ASCII string of length 1,2,3; then the accepted prefix is asked about every IPv4 and IPv6 client address","oracle":"loading gives Ok or Err(InvalidConfig); using an ACCEPTED prefix to match a client (acl::check_subnet) never panics","stubs":["alloc::fmt::format -> empty string (message text only)"],"covers":2,"unwind":20}
+    #[kani::proof]
+    #[kani::unwind(20)]
+    #[kani::stub(alloc::fmt::format, empty_format)]
+    fn c19_str_prefix_accepted_is_safe_to_match() {
+        let (acc, v6) = match kani::any::<u8>() {
+            0 => prefix_then_serve::<1>("192.0.2.0/"),
+            1 => prefix_then_serve::<2>("192.0.2.0/"),
+            2 => prefix_then_serve::<3>("192.0.2.0/"),
+            3 => prefix_then_serve::<1>("::ffff:0:1/"),
+            4 => prefix_then_serve::<2>("::ffff:0:1/"),
+            _ => prefix_then_serve::<3>("::ffff:0:1/"),
+        };
+        kani::cover!(acc && v6, "v6 prefix accepted");
+        kani::cover!(acc && !v6, "v4 prefix accepted");
+    }
+
+    /// VERIF: {"p":"C19","tier":"quick","fns":["config::Prefix6::contains(Ipv4Addr)","config::Prefix6::network","config::Prefix4::new"],"bounds":"Prefix6 built field-wise (exactly what str_prefix/str_prefix6 do) with all 2^128 addresses x every u8 prefix length 0..=255 x all 2^32 IPv4 clients","oracle":"no panic / underflow (`prefixlen - 96`, Prefix4::new's assert)","covers":2}
+    #[kani::proof]
+    fn c19_prefix6_contains_v4_total_any_len() {
+        let a: u128 = kani::any();
+        let len: u8 = kani::any();
+        let p6 = Prefix6 { addr: Ipv6Addr::from(a), prefixlen: len };
+        kani::cover!(len == 255 && a == 1, "over-long v6 length");
+        kani::cover!(len < 96, "shorter than the mapped /96");
+        let _ = p6.contains(Ipv4Addr::from(kani::any::<u32>()));
+    }
 }
